@@ -636,14 +636,15 @@ package sod
 //@ func (*DB).loadSchema
 //@ serves C01 C04 C08 C09 C10 C11 C17 C19
 //@ trusted "assumed: a directory produced by a crash-free history loads into a coherent schema (C04 round trip)"
-//@ requires [wf] wfDB(db) && of != nil && !has(db.schemas, stypeOf(dyntype(of)))
+//@ requires [wf] wfDBbase(db) && of != nil && !has(db.schemas, stypeOf(dyntype(of)))
 //@ requires [C08 locked] H >= 1 && SL == 2
 //@ requires [C09 lock-free] HS == 0 && HM == 0
 //@ ensures [load.cached] (err == nil || errIs(err, ErrIndexCorrupted)) == has(db.schemas, stypeOf(dyntype(of)))
 //@ ensures [load.schema] imp(err == nil || errIs(err, ErrIndexCorrupted), s != nil && fresh(s) && db.schemas[stypeOf(dyntype(of))] == s && s.ObjectIndex.otype == dyntype(of) && s.coherent == (err == nil))
 //@ ensures [C10 load.flusher] imp((err == nil || errIs(err, ErrIndexCorrupted)) && asyncOn(s), s.AsyncWrites.routineStarted)
 //@ ensures [load.others] db.schemas == old(db.schemas) && forallk(t, string, imp(t != stypeOf(dyntype(of)), has(db.schemas, t) == old(has(db.schemas, t)) && db.schemas[t] == old(db.schemas[t])))
-//@ ensures [load.wf] wfDB(db)
+//@ ensures [load.wf] wfDBbase(db)
+//@ ensures [load.wf-colls] imp(old(collsOK(db)), collsOK(db))
 //@ ensures [C17 load.readonly] FSk == old(FSk) && FSc == old(FSc)
 //@ modifies MapDom[string,*Schema]@db.schemas, MapVal[string,*Schema]@db.schemas, MapCard[string,*Schema]@db.schemas
 //@ allocates Schema.db, Schema.object, Schema.transformers, Schema.Fields, Schema.Extension, Schema.Compress, Schema.Cache, Schema.AsyncWrites, Schema.ObjectIndex, Schema.coherent, Async.routineStarted, Async.Enable, Async.Threshold, Async.Timeout, objIndex.i, objIndex.uuids, objIndex.Fields, objIndex.ObjectIds, objIndex.otype, objIndex.ver, MapDom[string,uint64], MapVal[string,uint64], MapCard[string,uint64], MapDom[uint64,string], MapVal[uint64,string], MapCard[uint64,string], MapDom[string,*fieldIndex], MapVal[string,*fieldIndex], MapCard[string,*fieldIndex], fieldIndex.Name, fieldIndex.Cast, fieldIndex.Constraints, fieldIndex.Index, fieldIndex.objectIds, fieldIndex.nameSplit, fieldIndex.pos, MapDom[uint64,*indexedField], MapVal[uint64,*indexedField], MapCard[uint64,*indexedField], Elem[*indexedField], indexedField.Value, indexedField.ObjectId, Elem[string]
@@ -657,7 +658,7 @@ package sod
 
 //@ func (*DB).schema
 //@ serves C01 C04 C06 C08 C09 C10 C11 C17 C19
-//@ requires [wf] wfDB(db) && of != nil
+//@ requires [wf] wfDBbase(db) && of != nil
 //@ requires [C08 locked] H >= 1
 //@ requires [C09 lock-free] SL == 0 && HS == 0 && HM == 0
 //@ ensures [C01 schema.ok] imp(err == nil, s != nil && has(db.schemas, stypeOf(dyntype(of))) && db.schemas[stypeOf(dyntype(of))] == s && s.ObjectIndex.otype == dyntype(of))
@@ -667,7 +668,8 @@ package sod
 //@ ensures [C10 schema.flusher] imp(err == nil && asyncOn(s), s.AsyncWrites.routineStarted)
 //@ ensures [C01 schema.others] db.schemas == old(db.schemas) && forallk(t, string, imp(t != stypeOf(dyntype(of)), has(db.schemas, t) == old(has(db.schemas, t)) && db.schemas[t] == old(db.schemas[t])))
 //@ ensures [C01 schema.keeps] imp(old(has(db.schemas, stypeOf(dyntype(of)))), has(db.schemas, stypeOf(dyntype(of))) && db.schemas[stypeOf(dyntype(of))] == old(db.schemas[stypeOf(dyntype(of))]))
-//@ ensures [C01 schema.wf] wfDB(db)
+//@ ensures [C01 schema.wf] wfDBbase(db)
+//@ ensures [C01 schema.wf-colls] imp(old(collsOK(db)), collsOK(db))
 //@ ensures [C17 schema.readonly] FSk == old(FSk) && FSc == old(FSc)
 //@ modifies MapDom[string,*Schema]@db.schemas, MapVal[string,*Schema]@db.schemas, MapCard[string,*Schema]@db.schemas, Async.routineStarted
 //@ allocates Schema.db, Schema.object, Schema.transformers, Schema.Fields, Schema.Extension, Schema.Compress, Schema.Cache, Schema.AsyncWrites, Schema.ObjectIndex, Schema.coherent, Async.routineStarted, Async.Enable, Async.Threshold, Async.Timeout, objIndex.i, objIndex.uuids, objIndex.Fields, objIndex.ObjectIds, objIndex.otype, objIndex.ver, MapDom[string,uint64], MapVal[string,uint64], MapCard[string,uint64], MapDom[uint64,string], MapVal[uint64,string], MapCard[uint64,string], MapDom[string,*fieldIndex], MapVal[string,*fieldIndex], MapCard[string,*fieldIndex], fieldIndex.Name, fieldIndex.Cast, fieldIndex.Constraints, fieldIndex.Index, fieldIndex.objectIds, fieldIndex.nameSplit, fieldIndex.pos, MapDom[uint64,*indexedField], MapVal[uint64,*indexedField], MapCard[uint64,*indexedField], Elem[*indexedField], indexedField.Value, indexedField.ObjectId, Elem[string]
@@ -804,7 +806,7 @@ package sod
 
 //@ func (*DB).commit
 //@ serves C01 C04 C05 C08 C09 C10
-//@ requires [wf] wfDB(db) && o != nil
+//@ requires [wf] wfDBbase(db) && o != nil
 //@ requires [C08 locked] H == 2
 //@ requires [C09 lock-free] SL == 0 && HS == 0 && HM == 0
 //@ let T string := stypeOf(dyntype(o))
@@ -812,7 +814,8 @@ package sod
 //@ ensures [C04 commit.ok] imp(err == nil, has(db.schemas, T) && committed(db, db.schemas[T]))
 //@ ensures [C05 commit.frame] imp(has(db.schemas, T), forallk(p, string, imp(p != spath(db, db.schemas[T]), FSk[p] == old(FSk[p]) && FSc[p] == old(FSc[p])))) && imp(!has(db.schemas, T), FSk == old(FSk) && FSc == old(FSc))
 //@ ensures [C05 commit.fail] imp(err != nil, FSk == old(FSk) && FSc == old(FSc) && imp(old(has(db.schemas, T)), isStorage(err)))
-//@ ensures [C01 commit.wf] wfDB(db)
+//@ ensures [C01 commit.wf] wfDBbase(db)
+//@ ensures [C01 commit.wf-colls] imp(old(collsOK(db)), collsOK(db))
 //@ ensures [C01 commit.others] db.schemas == old(db.schemas) && forallk(t, string, imp(t != T, has(db.schemas, t) == old(has(db.schemas, t)) && db.schemas[t] == old(db.schemas[t]))) && imp(old(has(db.schemas, T)), has(db.schemas, T) && db.schemas[T] == old(db.schemas[T]))
 //@ modifies Ghost.FSk, Ghost.FSc, MapDom[string,*Schema]@db.schemas, MapVal[string,*Schema]@db.schemas, MapCard[string,*Schema]@db.schemas, Async.routineStarted
 //@ allocates Elem[uint8], Schema.db, Schema.object, Schema.transformers, Schema.Fields, Schema.Extension, Schema.Compress, Schema.Cache, Schema.AsyncWrites, Schema.ObjectIndex, Schema.coherent, Async.routineStarted, Async.Enable, Async.Threshold, Async.Timeout, objIndex.i, objIndex.uuids, objIndex.Fields, objIndex.ObjectIds, objIndex.otype, objIndex.ver, MapDom[string,uint64], MapVal[string,uint64], MapCard[string,uint64], MapDom[uint64,string], MapVal[uint64,string], MapCard[uint64,string], MapDom[string,*fieldIndex], MapVal[string,*fieldIndex], MapCard[string,*fieldIndex], fieldIndex.Name, fieldIndex.Cast, fieldIndex.Constraints, fieldIndex.Index, fieldIndex.objectIds, fieldIndex.nameSplit, fieldIndex.pos, MapDom[uint64,*indexedField], MapVal[uint64,*indexedField], MapCard[uint64,*indexedField], Elem[*indexedField], indexedField.Value, indexedField.ObjectId, Elem[string]
@@ -829,6 +832,7 @@ package sod
 //@ let u0 string := o.uuid
 //@ let idx *objIndex := s.ObjectIndex
 //@ ghost u string := o.uuid
+//@ ensures [C01 iou.uuid-is] u == o.uuid
 //@ ensures [C01 iou.keeps-uuid] imp(err == nil, u != "" && imp(u0 != "", u == u0) && imp(u0 == "", !old(has(s.ObjectIndex.uuids, u))))
 //@ ensures [C01 iou.stored] imp(err == nil, has(idx.uuids, o.uuid) && value(db, s, o.uuid) == o.content)
 //@ ensures [C01 iou.others] imp(err == nil, forallk(w, string, imp(w != o.uuid, has(idx.uuids, w) == old(has(idx.uuids, w)) && value(db, s, w) == old(value(db, s, w)))))
@@ -837,7 +841,164 @@ package sod
 //@ ensures [C06 iou.reject-no-trace] imp(err != nil && !isStorage(err), FSk == old(FSk) && FSc == old(FSc) && idx.ver == old(idx.ver) && forallk(w, string, has(idx.uuids, w) == old(has(idx.uuids, w)) && cached(db, s, w) == old(cached(db, s, w)) && pend(db, s, w) == old(pend(db, s, w)) && imp(cached(db, s, w), db.cache.m[ckey(s)].m[w].content == old(db.cache.m[ckey(s)].m[w].content))))
 //@ ensures [C06 iou.reject-index] imp(err != nil && !isStorage(err), preserved(objIndex.i, MapDom[string,uint64], MapVal[string,uint64], MapDom[uint64,string], MapVal[uint64,string], fieldIndex.Index, fieldIndex.pos, MapDom[uint64,*indexedField], MapVal[uint64,*indexedField], Elem[*indexedField], indexedField.Value, indexedField.ObjectId))
 //@ ensures [C05 C06 iou.storage-detectable] imp(isStorage(err), (FSk == old(FSk) && FSc == old(FSc) && idx.ver == old(idx.ver)) || !collK1(db, s) || !collK2(db, s))
-//@ ensures [C01 iou.wf] imp(!isStorage(err), wfDB(db))
+//@ callhint (*DB).commit [C01 coherent-before-commit] collsOK(db)
+//@ ensures [C01 iou.wf-base] wfDBbase(db)
+//@ ensures [C01 iou.wf] imp(!isStorage(err), collsOK(db))
 //@ ensures [C01 iou.table] db.schemas == old(db.schemas) && has(db.schemas, stypeOf(dyntype(o))) && db.schemas[stypeOf(dyntype(o))] == s && s.ObjectIndex == idx && s.coherent
 //@ modifies Object.uuid@o, Ghost.FSk, Ghost.FSc, Async.routineStarted, MapDom[string,*Schema]@db.schemas, MapVal[string,*Schema]@db.schemas, MapCard[string,*Schema]@db.schemas, MapDom[string,*objectMap], MapVal[string,*objectMap], MapCard[string,*objectMap], MapDom[string,Object], MapVal[string,Object], MapCard[string,Object], objIndex.i@s.ObjectIndex, objIndex.ver@s.ObjectIndex, MapDom[string,uint64]@s.ObjectIndex.uuids, MapVal[string,uint64]@s.ObjectIndex.uuids, MapCard[string,uint64]@s.ObjectIndex.uuids, MapDom[uint64,string]@s.ObjectIndex.ObjectIds, MapVal[uint64,string]@s.ObjectIndex.ObjectIds, MapCard[uint64,string]@s.ObjectIndex.ObjectIds, fieldIndex.Index, fieldIndex.pos, MapDom[uint64,*indexedField], MapVal[uint64,*indexedField], MapCard[uint64,*indexedField], Elem[*indexedField]
 //@ allocates Elem[uint8], Elem[interface{}], Object.content, Object.uuid, objectMap.m, objectMap.RWMutex, indexedField.Value, indexedField.ObjectId, Schema.db, Schema.object, Schema.transformers, Schema.Fields, Schema.Extension, Schema.Compress, Schema.Cache, Schema.AsyncWrites, Schema.ObjectIndex, Schema.coherent, Async.routineStarted, Async.Enable, Async.Threshold, Async.Timeout, objIndex.i, objIndex.uuids, objIndex.Fields, objIndex.ObjectIds, objIndex.otype, objIndex.ver, MapDom[string,uint64], MapVal[string,uint64], MapCard[string,uint64], MapDom[uint64,string], MapVal[uint64,string], MapCard[uint64,string], MapDom[string,*fieldIndex], MapVal[string,*fieldIndex], MapCard[string,*fieldIndex], fieldIndex.Name, fieldIndex.Cast, fieldIndex.Constraints, fieldIndex.Index, fieldIndex.objectIds, fieldIndex.nameSplit, fieldIndex.pos, MapDom[uint64,*indexedField], MapVal[uint64,*indexedField], MapCard[uint64,*indexedField], Elem[*indexedField], Elem[string]
+
+//@ func (*DB).delete
+//@ serves C01 C05 C08 C09 C10 C11 C12
+//@ requires [wf] wfDB(db) && o != nil
+//@ requires [C08 locked] H == 2
+//@ requires [C09 lock-free] SL == 0 && HS == 0 && HM == 0
+//@ let T string := stypeOf(dyntype(o))
+//@ let u string := o.uuid
+//@ assume [single-collection] forallk(t, string, imp(has(db.schemas, t), t == T))
+//@ ensures [C01 del.schema] imp(err == nil, has(db.schemas, T))
+//@ ensures [C01 del.gone] imp(has(db.schemas, T) && (err == nil || isStorage(err)) && old(has(db.schemas, T)) && db.schemas[T].coherent, !has(db.schemas[T].ObjectIndex.uuids, u) && !cached(db, db.schemas[T], u) && !pend(db, db.schemas[T], u))
+//@ ensures [C01 C10 del.file-gone] imp(err == nil && old(has(db.schemas, T)) && db.schemas[T].coherent, FSk[opath(db, db.schemas[T], u)] == 0)
+//@ ensures [C01 del.others] imp(old(has(db.schemas, T)), forallk(w, string, imp(w != u, has(db.schemas[T].ObjectIndex.uuids, w) == old(has(db.schemas[T].ObjectIndex.uuids, w)) && value(db, db.schemas[T], w) == old(value(db, db.schemas[T], w)))))
+//@ ensures [C05 del.storage-detectable] imp(isStorage(err) && old(has(db.schemas, T)) && db.schemas[T].coherent, !collK2(db, db.schemas[T]) || wfColl(db, db.schemas[T]))
+//@ ensures [C01 del.wf-base] wfDBbase(db)
+//@ ensures [C01 del.wf] imp(!isStorage(err), collsOK(db))
+//@ ensures [C01 del.table] db.schemas == old(db.schemas) && forallk(t, string, imp(t != T, has(db.schemas, t) == old(has(db.schemas, t)) && db.schemas[t] == old(db.schemas[t]))) && imp(old(has(db.schemas, T)), has(db.schemas, T) && db.schemas[T] == old(db.schemas[T]) && db.schemas[T].ObjectIndex == old(db.schemas[T].ObjectIndex) && db.schemas[T].coherent == old(db.schemas[T].coherent))
+//@ modifies Ghost.FSk, Async.routineStarted, MapDom[string,*Schema]@db.schemas, MapVal[string,*Schema]@db.schemas, MapCard[string,*Schema]@db.schemas, MapDom[string,Object], MapCard[string,Object], objIndex.ver, MapDom[string,uint64], MapVal[string,uint64], MapCard[string,uint64], MapDom[uint64,string], MapVal[uint64,string], MapCard[uint64,string], fieldIndex.Index, fieldIndex.pos, MapDom[uint64,*indexedField], MapVal[uint64,*indexedField], MapCard[uint64,*indexedField], Elem[*indexedField]
+//@ allocates Schema.db, Schema.object, Schema.transformers, Schema.Fields, Schema.Extension, Schema.Compress, Schema.Cache, Schema.AsyncWrites, Schema.ObjectIndex, Schema.coherent, Async.routineStarted, Async.Enable, Async.Threshold, Async.Timeout, objIndex.i, objIndex.uuids, objIndex.Fields, objIndex.ObjectIds, objIndex.otype, objIndex.ver, MapDom[string,uint64], MapVal[string,uint64], MapCard[string,uint64], MapDom[uint64,string], MapVal[uint64,string], MapCard[uint64,string], MapDom[string,*fieldIndex], MapVal[string,*fieldIndex], MapCard[string,*fieldIndex], fieldIndex.Name, fieldIndex.Cast, fieldIndex.Constraints, fieldIndex.Index, fieldIndex.objectIds, fieldIndex.nameSplit, fieldIndex.pos, MapDom[uint64,*indexedField], MapVal[uint64,*indexedField], MapCard[uint64,*indexedField], Elem[*indexedField], indexedField.Value, indexedField.ObjectId, Elem[string]
+
+// ---- handle lock (typestate) and exported API -------------------------------------
+
+//@ func (*DB).Lock
+//@ serves C08 C09
+//@ requires db != nil
+//@ requires [C09 lock-free] lockFree()
+//@ ensures [C08 locked] H == 2 && ACQ_H == old(ACQ_H) + 1
+//@ modifies Ghost.H, Ghost.ACQ_H
+
+//@ func (*DB).RLock
+//@ serves C08 C09
+//@ requires db != nil
+//@ requires [C09 lock-free] lockFree()
+//@ ensures [C08 locked] H == 1 && ACQ_H == old(ACQ_H) + 1
+//@ modifies Ghost.H, Ghost.ACQ_H
+
+//@ func (*DB).Unlock
+//@ serves C08 C09
+//@ requires db != nil
+//@ requires [C08 held] H == 2
+//@ ensures H == 0
+//@ modifies Ghost.H
+
+//@ func (*DB).RUnlock
+//@ serves C08 C09
+//@ requires db != nil
+//@ requires [C08 held] H == 1
+//@ ensures H == 0
+//@ modifies Ghost.H
+
+// reflection: assumed contract (bounded stand-in of C16)
+//@ func (*Schema).transform
+//@ serves C15 C16
+//@ trusted "reflection-bodied (Constraints.recursiveTransform): applies every upper/lower constraint of the schema to the object"
+//@ requires [C15 after-object-transform] o != nil && o.stage >= 1
+//@ ensures o.stage == 2 && o.uuid == old(o.uuid) && o.content == canon(old(o.content), dyntype(o))
+//@ modifies Object.content@o, Object.stage@o
+
+//@ func validationErr
+//@ serves C15
+//@ ensures [C15 invalid-class] result != nil && errIs(result, ErrInvalidObject) && !isStorage(result)
+//@ pure
+
+//@ func (*DB).Get
+//@ serves C01 C08 C09 C12 C14
+//@ requires [wf] wfDB(db) && in != nil && callerOwned(db, in)
+//@ requires [C09 lock-free] lockFree()
+//@ let u string := in.uuid
+//@ let T string := stypeOf(dyntype(in))
+//@ ensures [C08 one-section] ACQ_H == old(ACQ_H) + 1
+//@ ensures [C01 Get.stored] imp(has(db.schemas, T) && db.schemas[T].coherent && has(db.schemas[T].ObjectIndex.uuids, u), (err == nil && out != nil && out.uuid == u && out.content == value(db, db.schemas[T], u)) || isStorage(err))
+//@ ensures [C01 Get.absent] imp(has(db.schemas, T) && db.schemas[T].coherent && !has(db.schemas[T].ObjectIndex.uuids, u), err != nil && !isStorage(err))
+//@ ensures [C01 Get.wf] wfDB(db)
+//@ ensures [C01 Get.readonly] FSk == old(FSk) && FSc == old(FSc)
+//@ modifies Ghost.ACQ_H, MapDom[string,*Schema]@db.schemas, MapVal[string,*Schema]@db.schemas, MapCard[string,*Schema]@db.schemas, Async.routineStarted, Object.content@in, MapDom[string,*objectMap]@db.cache.m, MapVal[string,*objectMap]@db.cache.m, MapCard[string,*objectMap]@db.cache.m, MapDom[string,Object], MapVal[string,Object], MapCard[string,Object]
+
+//@ func (*DB).GetByUUID
+//@ serves C01 C08 C09 C12
+//@ requires [wf] wfDB(db) && in != nil && callerOwned(db, in)
+//@ requires [C09 lock-free] lockFree()
+//@ let T string := stypeOf(dyntype(in))
+//@ ensures [C08 one-section] ACQ_H == old(ACQ_H) + 1
+//@ ensures [C01 GetByUUID.stored] imp(has(db.schemas, T) && db.schemas[T].coherent && has(db.schemas[T].ObjectIndex.uuids, uuid), (err == nil && out != nil && out.uuid == uuid && out.content == value(db, db.schemas[T], uuid)) || isStorage(err))
+//@ ensures [C01 GetByUUID.absent] imp(has(db.schemas, T) && db.schemas[T].coherent && !has(db.schemas[T].ObjectIndex.uuids, uuid), err != nil && !isStorage(err))
+//@ ensures [C01 GetByUUID.wf] wfDB(db)
+//@ modifies Ghost.ACQ_H, Object.uuid@in, MapDom[string,*Schema]@db.schemas, MapVal[string,*Schema]@db.schemas, MapCard[string,*Schema]@db.schemas, Async.routineStarted, Object.content@in, MapDom[string,*objectMap]@db.cache.m, MapVal[string,*objectMap]@db.cache.m, MapCard[string,*objectMap]@db.cache.m, MapDom[string,Object], MapVal[string,Object], MapCard[string,Object]
+
+//@ func (*DB).getByUUID
+//@ serves C01 C08 C09 C12
+//@ requires [wf] wfDB(db) && in != nil && callerOwned(db, in)
+//@ requires [C08 locked] H >= 1
+//@ requires [C09 lock-free] SL == 0 && HS == 0 && HM == 0
+//@ let T string := stypeOf(dyntype(in))
+//@ ensures [C01 getByUUID.stored] imp(has(db.schemas, T) && db.schemas[T].coherent && has(db.schemas[T].ObjectIndex.uuids, uuid), (err == nil && out != nil && out.uuid == uuid && out.content == value(db, db.schemas[T], uuid)) || isStorage(err))
+//@ ensures [C01 getByUUID.absent] imp(has(db.schemas, T) && db.schemas[T].coherent && !has(db.schemas[T].ObjectIndex.uuids, uuid), err != nil && !isStorage(err))
+//@ ensures [C01 getByUUID.wf] wfDB(db)
+//@ ensures [C01 getByUUID.readonly] FSk == old(FSk) && FSc == old(FSc)
+//@ ensures [C01 getByUUID.others] db.schemas == old(db.schemas) && forallk(t, string, imp(t != T, has(db.schemas, t) == old(has(db.schemas, t)) && db.schemas[t] == old(db.schemas[t]))) && imp(old(has(db.schemas, T)), db.schemas[T] == old(db.schemas[T]))
+//@ modifies Object.uuid@in, MapDom[string,*Schema]@db.schemas, MapVal[string,*Schema]@db.schemas, MapCard[string,*Schema]@db.schemas, Async.routineStarted, Object.content@in, MapDom[string,*objectMap]@db.cache.m, MapVal[string,*objectMap]@db.cache.m, MapCard[string,*objectMap]@db.cache.m, MapDom[string,Object], MapVal[string,Object], MapCard[string,Object]
+
+//@ func (*DB).Exist
+//@ serves C01 C08 C09 C10 C12
+//@ requires [wf] wfDB(db) && o != nil
+//@ requires [C09 lock-free] lockFree()
+//@ ensures [C08 one-section] ACQ_H == old(ACQ_H) + 1
+//@ ensures [C01 C12 Exist.iff] imp(err == nil && db.schemas[stypeOf(dyntype(o))].coherent, ok == has(db.schemas[stypeOf(dyntype(o))].ObjectIndex.uuids, o.uuid))
+//@ ensures [C01 Exist.wf] wfDB(db)
+//@ ensures [C01 Exist.readonly] FSk == old(FSk) && FSc == old(FSc)
+//@ modifies Ghost.ACQ_H, MapDom[string,*Schema]@db.schemas, MapVal[string,*Schema]@db.schemas, MapCard[string,*Schema]@db.schemas, Async.routineStarted
+
+//@ func (*DB).InsertOrUpdate
+//@ serves C01 C04 C06 C08 C09 C10 C12 C15
+//@ requires [wf] wfDB(db) && o != nil && callerOwned(db, o)
+//@ requires [C09 lock-free] lockFree()
+//@ let T string := stypeOf(dyntype(o))
+//@ let u0 string := o.uuid
+//@ assume [single-collection] forallk(t, string, imp(has(db.schemas, t), t == T))
+//@ assume [id-room] forallk(t, string, imp(has(db.schemas, t), db.schemas[t].ObjectIndex.i < 18446744073709551615))
+//@ assume [coherent] forallk(t, string, imp(has(db.schemas, t), db.schemas[t].coherent))
+//@ ghost u string := o.uuid
+//@ ensures [C08 one-section] ACQ_H == old(ACQ_H) + 1
+//@ ensures [C01 IOU.stored] imp(err == nil, has(db.schemas, T) && has(db.schemas[T].ObjectIndex.uuids, u) && value(db, db.schemas[T], u) == o.content && u != "" && imp(u0 != "", u == u0))
+//@ ensures [C15 IOU.hooks] imp(err == nil, o.stage == 3)
+//@ ensures [C01 IOU.others] imp(err == nil && old(has(db.schemas, T)), forallk(w, string, imp(w != u, has(db.schemas[T].ObjectIndex.uuids, w) == old(has(db.schemas[T].ObjectIndex.uuids, w)) && value(db, db.schemas[T], w) == old(value(db, db.schemas[T], w)))))
+//@ ensures [C04 IOU.committed] imp(err == nil && !asyncOn(db.schemas[T]), committed(db, db.schemas[T]))
+//@ ensures [C06 IOU.reject-no-trace] imp(err != nil && !isStorage(err) && old(has(db.schemas, T)), FSk == old(FSk) && FSc == old(FSc) && db.schemas[T].ObjectIndex.ver == old(db.schemas[T].ObjectIndex.ver) && forallk(w, string, has(db.schemas[T].ObjectIndex.uuids, w) == old(has(db.schemas[T].ObjectIndex.uuids, w)) && cached(db, db.schemas[T], w) == old(cached(db, db.schemas[T], w)) && pend(db, db.schemas[T], w) == old(pend(db, db.schemas[T], w))))
+//@ ensures [C17 IOU.unknown-schema-no-write] imp(err != nil && !has(db.schemas, T), FSk == old(FSk) && FSc == old(FSc))
+//@ ensures [C01 IOU.wf] imp(!isStorage(err), wfDB(db))
+//@ modifies Ghost.ACQ_H, Object.content@o, Object.stage@o, Object.uuid@o, Ghost.FSk, Ghost.FSc, Async.routineStarted, MapDom[string,*Schema]@db.schemas, MapVal[string,*Schema]@db.schemas, MapCard[string,*Schema]@db.schemas, MapDom[string,*objectMap], MapVal[string,*objectMap], MapCard[string,*objectMap], MapDom[string,Object], MapVal[string,Object], MapCard[string,Object], objIndex.i, objIndex.ver, MapDom[string,uint64], MapVal[string,uint64], MapCard[string,uint64], MapDom[uint64,string], MapVal[uint64,string], MapCard[uint64,string], fieldIndex.Index, fieldIndex.pos, MapDom[uint64,*indexedField], MapVal[uint64,*indexedField], MapCard[uint64,*indexedField], Elem[*indexedField]
+
+//@ func (*DB).Delete
+//@ serves C01 C04 C05 C08 C09 C10 C12
+//@ requires [wf] wfDB(db) && o != nil
+//@ requires [C09 lock-free] lockFree()
+//@ let T string := stypeOf(dyntype(o))
+//@ let u string := o.uuid
+//@ assume [single-collection] forallk(t, string, imp(has(db.schemas, t), t == T))
+//@ assume [coherent] forallk(t, string, imp(has(db.schemas, t), db.schemas[t].coherent))
+//@ ensures [C08 one-section] ACQ_H == old(ACQ_H) + 1
+//@ ensures [C01 Del.gone] imp(lastErr == nil && old(has(db.schemas, T)), !has(db.schemas[T].ObjectIndex.uuids, u) && !cached(db, db.schemas[T], u) && !pend(db, db.schemas[T], u) && FSk[opath(db, db.schemas[T], u)] == 0)
+//@ ensures [C01 Del.others] imp(old(has(db.schemas, T)), forallk(w, string, imp(w != u, has(db.schemas[T].ObjectIndex.uuids, w) == old(has(db.schemas[T].ObjectIndex.uuids, w)) && value(db, db.schemas[T], w) == old(value(db, db.schemas[T], w)))))
+//@ ensures [C04 Del.committed] imp(lastErr == nil && has(db.schemas, T), committed(db, db.schemas[T]))
+//@ ensures [C01 Del.wf-base] wfDBbase(db)
+//@ ensures [C01 Del.wf] imp(!isStorage(lastErr), collsOK(db))
+//@ modifies Ghost.ACQ_H, Ghost.FSk, Ghost.FSc, Async.routineStarted, MapDom[string,*Schema]@db.schemas, MapVal[string,*Schema]@db.schemas, MapCard[string,*Schema]@db.schemas, MapDom[string,Object], MapCard[string,Object], objIndex.ver, MapDom[string,uint64], MapVal[string,uint64], MapCard[string,uint64], MapDom[uint64,string], MapVal[uint64,string], MapCard[uint64,string], fieldIndex.Index, fieldIndex.pos, MapDom[uint64,*indexedField], MapVal[uint64,*indexedField], MapCard[uint64,*indexedField], Elem[*indexedField]
+
+//@ func (*DB).Commit
+//@ serves C04 C08 C09
+//@ requires [wf] wfDB(db) && o != nil
+//@ requires [C09 lock-free] lockFree()
+//@ assume [single-collection] forallk(t, string, imp(has(db.schemas, t), t == stypeOf(dyntype(o))))
+//@ ensures [C08 one-section] ACQ_H == old(ACQ_H) + 1
+//@ ensures [C04 Commit.ok] imp(err == nil, has(db.schemas, stypeOf(dyntype(o))) && committed(db, db.schemas[stypeOf(dyntype(o))]))
+//@ ensures [C01 Commit.wf] wfDB(db)
+//@ modifies Ghost.ACQ_H, Ghost.FSk, Ghost.FSc, MapDom[string,*Schema]@db.schemas, MapVal[string,*Schema]@db.schemas, MapCard[string,*Schema]@db.schemas, Async.routineStarted
